@@ -209,7 +209,7 @@ def expected_call(tok, fmt_arg):
     return pre + (fmt_arg.c_var if tok == "c" else fmt_arg.cxx_var)
 
 
-def classify_return(code):
+def classify_return(code, fmt):
     """return statement shape of the generated body"""
     rets = [l.strip() for l in code if l.strip().startswith("return")]
     if not rets:
@@ -219,25 +219,26 @@ def classify_return(code):
     if not m:
         return "other"
     pre, var = m.groups()
-    if var.startswith("SHadow_"):
+    if var.startswith(fmt.SH_shadow):
         return "shadow"
-    if var.startswith("SHC_"):
+    if var.startswith(fmt.C_local):
         return "cvar%d" % {"": 0, "&": 1, "*": 2}[pre]
-    if var.startswith("SHCXX_") and pre == "*":
+    if var.startswith(fmt.CXX_local) and pre == "*":
         return "derefCxx"
     return "other"
 
 
-def classify_call(code, fname):
+def classify_call(code, fmt):
     lines = [l.strip() for l in code]
     body = " ".join(lines)
-    if re.search(r"\bdelete\s+SH_this\b", body):
+    cxx, cl, rv = re.escape(fmt.CXX_local), re.escape(fmt.C_local), re.escape(fmt.C_result)
+    if re.search(r"\bdelete\s+%s\b" % re.escape(fmt.CXX_this), body):
         return "dtorDelete"
-    if any(re.match(r"[\w:<>, ]+\*\s*SHCXX_\w+\s*=\s*new\s+[\w:<>, ]+\(", l) for l in lines):
+    if any(re.match(r"[\w:<>, ]+\*\s*%s\w+\s*=\s*new\s+[\w:<>, ]+\(" % cxx, l) for l in lines):
         return "ctorNew"
-    if any(re.match(r"\*SHCXX_\w+\s*=", l) for l in lines):
+    if any(re.match(r"\*%s\w+\s*=" % cxx, l) for l in lines):
         return "assignNew"
-    if re.search(r"\b(SHC_rv|SHCXX_rv)\s*=", body):
+    if re.search(r"\b(%s%s|%s%s)\s*=" % (cl, rv, cxx, rv), body):
         return "assign"
     return "plain"
 
@@ -306,13 +307,11 @@ def compare(ctx, reply, cls, node, body, names, bad, tag, stats):
         if c is not None:
             calls.append(c)
     proto += render_proto(lst(head["tail"]), ast, fmt_res, res_blk, name=getattr(fmt_res, "shadow_var", None))
-    real_proto = fmt.C_prototype.split(",\t ")
-    if real_proto == ["void"]:
-        real_proto = []
-    if "C_prototype" in node.options.__dict__ or node.options.get("C_prototype", None):
+    real_proto = fmt.C_prototype
+    if node.options.get("C_prototype", None):
         pass
-    elif real_proto != proto:
-        note("prototype", real_proto, proto)
+    elif real_proto != (",\t ".join(proto) if proto else "void"):
+        note("prototype", real_proto.split(",\t "), proto)
     real_calls = fmt.C_call_list.split(",\t ") if fmt.inlocal("C_call_list") and fmt.C_call_list else []
     if real_calls != calls:
         note("call list", real_calls, calls)
@@ -326,10 +325,10 @@ def compare(ctx, reply, cls, node, body, names, bad, tag, stats):
         if this_real != head["this"]:
             note("this set-up", this_real, head["this"])
         if code is not None and not has_local:
-            rr = classify_return(code)
+            rr = classify_return(code, fmt)
             if rr != head["ret"] and not (head["ret"] == "derefCxx" and rr == "cvar2"):  # cxx_var may be SHC_rv itself
                 note("return statement", rr, head["ret"])
-            cc = classify_call(code, fmt.function_name)
+            cc = classify_call(code, fmt)
             if head["call"] != "other" and cc != head["call"]:
                 note("call statement", cc, head["call"])
             stats["ret:" + rr] = stats.get("ret:" + rr, 0) + 1
